@@ -27,8 +27,40 @@ def shipped_tables(rng, n):
     return (keep + rest)[:n]
 
 
+RUNCHARS = [45, 95, 46, 61, 126, 58, 42, 64, 32, 0x2014, 0x2026, 9]
+
+
+def gen_runs(rng, maxlen=40):
+    """words interleaved with runs of one repeated character (tables have `repeated' rules for ---, ____, ...., ===);
+    often the input ends inside a run"""
+    out = []
+    for _ in range(rng.range(1, 4)):
+        if rng.chance(0.7):
+            out += [ord(c) for c in rng.choice(WORDS)] + [32]
+        out += [rng.choice(RUNCHARS)] * rng.range(1, 9)
+        if rng.chance(0.5):
+            out += [32]
+    if rng.chance(0.6):
+        while out and out[-1] == 32:
+            out.pop()
+    return out[:maxlen] or [45]
+
+
+def gen_poison_probe(rng):
+    """a long homogeneous input followed by shorter inputs that end inside a run of the same character: whatever reads behind
+    the end of a pass input then sees characters that continue the run"""
+    c = rng.choice(RUNCHARS[:8])
+    group = [[c] * 40]
+    for _ in range(4):
+        w = [ord(x) for x in rng.choice(WORDS)] + [32] if rng.chance(0.7) else []
+        group.append(w + [c] * rng.range(1, 7))
+    return group
+
+
 def gen_input(rng, maxlen=40):
-    k = rng.below(6)
+    k = rng.below(7)
+    if k == 6:
+        return gen_runs(rng, maxlen)
     if k == 0:
         s = " ".join(rng.choice(WORDS) for _ in range(rng.range(1, 8)))
         inp = [ord(c) for c in s][:maxlen]
